@@ -183,8 +183,29 @@ def _observe(bld, res, ln):
     return ([u for (_, u) in cu] if cu else []), (["rc=%s" % res.rc] if res.rc != 0 else [])
 
 
+def _judge_in(bld, c, src, where, cwhere, i, res, hist):
+    """case number i of the program src -> (verdict, kind, text) incl. the check of its context statement"""
+    if res.timeout or res.sig is not None:
+        return "violation", "crash", "assembler crashed / hung"
+    if hist and bld.hooks:
+        xe, xr = _observe(bld, res, cwhere[i])
+        x = c["ctx"]
+        if xr or xe != x["units"]:
+            return "violation", "context", "its context statement '%s' assembled to %s (errors %s), the instruction set " \
+                   "prescribes %s" % (stmt_text(x).strip().replace("\t", " "), xe, xr, x["units"])
+    e1, r1 = _observe(bld, res, where[i])
+    if not bld.hooks:
+        # code file only: the bytes of the statements in front come first
+        n = len(c["ctx"]["units"]) if hist else 0
+        e1 = e1[n:] if e1[:n] == c["ctx"]["units"][:n] else e1
+    return judge(c, e1, r1, res.rc)
+
+
 def replay(rep, bld, cases, hist):
-    """assemble every case (hist: directly behind its context statement) and judge it"""
+    """assemble every case (hist: directly behind its context statement) and judge it.  Batches first; a case that does
+    not show the expected picture there is a suspect: it is assembled as a program of its own and judged there; if it
+    is fine alone, together with the case in front of it in the batch (the instruction set is context free: what the
+    previous statement left behind must not matter); if it is fine there too, the batch program itself is the evidence."""
     groups = []
     for dpr in sorted({c["dpr"] for c in cases}):
         mine = [c for c in cases if c["dpr"] == dpr]
@@ -192,23 +213,23 @@ def replay(rep, bld, cases, hist):
         oth = [c for c in mine if not (c["exp"] != "reject" and c["pred"] == "units")]
         groups += [(dpr, True, acc[i:i + ACC_CHUNK]) for i in range(0, len(acc), ACC_CHUNK)]
         groups += [(dpr, False, oth[i:i + REJ_CHUNK]) for i in range(0, len(oth), REJ_CHUNK)]
-    suspects = []
+    suspects = []           # (case, case in front of it in the batch or None, batch source or None, what the batch showed)
     if bld.hooks:
         metas = [source(g, dpr, hist) for (dpr, _, g) in groups]
         results = _many(bld, [{"sources": {"a.asm": m[0]}, "opts": ["-q"], "events": "emit,diag", "timeout": 120} for m in metas])
         for (dpr, isacc, g), (src, where, cwhere), res in zip(groups, metas, results):
             rep.traces(1)
             if res.timeout or res.sig is not None or res.trace is None:
-                suspects += g
+                suspects += [(c, None, None, "") for c in g]
                 continue
             em, errs = isa.emitted_by_line(res.trace, CFG)
             clean = True
             for i, c in enumerate(g):
                 v, kind, text = judge(c, em.get(where[i], []), errs.get(where[i], []), res.rc)
                 if hist and not ctx_ok(c, em.get(cwhere[i], []), errs.get(cwhere[i], [])):
-                    v = "violation"
+                    v, text = "violation", "context statement assembled to %s" % em.get(cwhere[i], [])
                 if v == "violation":
-                    suspects.append(c)
+                    suspects.append((c, g[i - 1] if i else None, src, text))
                     clean = False
                 elif v == "drift":
                     note_drift(c, kind, text, hist)
@@ -229,38 +250,39 @@ def replay(rep, bld, cases, hist):
                                   % (n, got[n:n + 3] if got else None, want[n:n + 3]), files={"a.asm": src},
                                   key={"isa": "6809", "cpu": "6809", "kind": "code-file"})
     else:
-        suspects = list(cases)
-    # suspects (and, without hooks, everything): a program of their own ---------------------------------------------
-    metas = [source([c], c["dpr"], hist) for c in suspects]
-    results = _many(bld, [{"sources": {"a.asm": m[0]}, "opts": ["-q"], "events": "emit,diag" if bld.hooks else None}
-                          for m in metas])
-    for c, (src, where, cwhere), res in zip(suspects, metas, results):
-        at = (" at %d" % c["pc"] if c["pc"] >= 0 else "") + (" (assume dpr:%d)" % c["dpr"] if c["dpr"] else "")
-        stmt = stmt_text(c).strip().replace("\t", " ")
-        if res.timeout or res.sig is not None:
-            rep.violation("6809: assembler crashed / hung on '%s'" % stmt, case=c, files={"a.asm": src}, key=key_of(c, "crash", hist))
-            continue
-        if hist and bld.hooks:
-            xe, xr = _observe(bld, res, cwhere[0])
-            x = c["ctx"]
-            if not (not xr and xe == x["units"]):
-                xs = stmt_text(x).strip().replace("\t", " ")
-                rep.violation("6809: context statement '%s'%s assembled to %s (errors %s), the instruction set prescribes %s"
-                              % (xs, at, xe, xr, x["units"]), case=c, files={"a.asm": src},
-                              key={"isa": "6809", "cpu": "6809", "form": x["id"], "kind": "context", "cls": x["shape"]})
-                continue
-        e1, r1 = _observe(bld, res, where[0])
-        if hist and not bld.hooks:
-            n = len(c["ctx"]["units"])
-            e1 = e1[n:] if e1[:n] == c["ctx"]["units"] else e1
-        v, kind, text = judge(c, e1, r1, res.rc)
+        suspects = [(c, None, None, "") for c in cases]
+    ev = "emit,diag" if bld.hooks else None
+
+    def describe(c):
+        return "'%s'%s%s%s" % (stmt_text(c).strip().replace("\t", " "), " at %d" % c["pc"] if c["pc"] >= 0 else "",
+                               " (assume dpr:%d)" % c["dpr"] if c["dpr"] else "",
+                               " on the line directly after '%s'" % stmt_text(c["ctx"]).strip().replace("\t", " ") if hist else "")
+    # 1: a program of its own ----------------------------------------------------------------------------------------
+    metas = [source([c], c["dpr"], hist) for (c, _, _, _) in suspects]
+    results = _many(bld, [{"sources": {"a.asm": m[0]}, "opts": ["-q"], "events": ev} for m in metas])
+    pairs = []
+    for (c, prev, bsrc, btext), (src, where, cwhere), res in zip(suspects, metas, results):
+        v, kind, text = _judge_in(bld, c, src, where, cwhere, 0, res, hist)
         if v == "violation":
-            behind = " on the line directly after '%s'" % stmt_text(c["ctx"]).strip().replace("\t", " ") if hist else ""
-            rep.violation("6809: '%s'%s%s: %s" % (stmt, at, behind, text), case=c,
-                          files={"a.asm": src, "out.txt": res.out + res.err}, key=key_of(c, kind, hist))
-        elif v == "drift":
-            note_drift(c, kind, text, hist)
-    rep.traces(len(suspects))
+            rep.violation("6809: %s: %s" % (describe(c), text), case=c, files={"a.asm": src, "out.txt": res.out + res.err},
+                          key=key_of(c, kind, hist))
+        elif bsrc is not None:
+            pairs.append((c, prev, bsrc, btext))
+    # 2: fine alone, but not in the batch: behind the case that stood in front of it ------------------------------------
+    metas = [source([prev, c] if prev is not None else [c], c["dpr"], hist) for (c, prev, _, _) in pairs]
+    results = _many(bld, [{"sources": {"a.asm": m[0]}, "opts": ["-q"], "events": ev} for m in metas])
+    for (c, prev, bsrc, btext), (src, where, cwhere), res in zip(pairs, metas, results):
+        i = 1 if prev is not None else 0
+        v, kind, text = _judge_in(bld, c, src, where, cwhere, i, res, hist) if bld.hooks else ("ok", "", "")
+        if v == "violation" and prev is not None:
+            rep.violation("6809: %s, alone assembled as the instruction set prescribes, but behind the statement '%s': %s"
+                          % (describe(c), stmt_text(prev).strip().replace("\t", " "), text), case=c,
+                          files={"a.asm": src, "out.txt": res.out + res.err}, key=key_of(c, kind + "-after-statement", hist))
+        else:
+            rep.violation("6809: %s, alone assembled as the instruction set prescribes, but inside a program of %d "
+                          "statements: %s" % (describe(c), bsrc.count("\n"), btext), case=c, files={"a.asm": bsrc},
+                          key=key_of(c, "batch-only", hist))
+    rep.traces(len(suspects) + len(pairs))
     for c in cases:
         rep.evaluated()
         rep.distinct(("6809", stmt_text(c), c["pc"], c["dpr"], hist), True)
